@@ -14,6 +14,9 @@ def main():
     ap.add_argument("--tier", default=os.environ.get("VERIF_TIER", "quick"))
     a = ap.parse_args()
     seed = int(os.environ.get("VERIF_SEED", "0") or 0)
+    import logging
+
+    logging.disable(logging.CRITICAL)  # PyDRex logs to the console; the checks' stdout carries only their own lines
     from pv import native
     from pv.report import Run
 
